@@ -217,6 +217,13 @@ func checkLocked(c *fw.Ctx, rule string, fn *ssa.Function, fname, fieldSig, lock
 
 func checkDNSCache(c *fw.Ctx) {
 	rule := "1 dns-cache"
+	if c.InlinedReports == nil {
+		c.InlinedReports = map[string]bool{}
+	}
+	// where the room test sits relative to the insertion is judged on whichever view shows both
+	// in one function (an eviction loop moved into a helper is invisible to the source view)
+	c.InlinedReports[rule+"|eviction and insertion happen in one critical section"] = true
+	c.InlinedReports[rule+"|an entry is inserted only after the eviction loop established len(entries) < size"] = true
 	lookup := mustFunc(c, rule, "fclient.(*DNSCache).lookup")
 	dial := mustFunc(c, rule, "fclient.(*DNSCache).DialContext")
 	if lookup == nil || dial == nil {
